@@ -3198,3 +3198,5 @@ def check(run, prog):
     rule_declarator_zoo(run, prog)           # R-5.16
     from .c05_truncation import rule_truncated_inputs
     rule_truncated_inputs(run, prog)         # R-5.17
+    from .c05_fatal_answer import rule_fatal_answer
+    rule_fatal_answer(run, prog)             # R-5.18
